@@ -14,6 +14,34 @@ statistics generation.
 namespace Diffx.Dom
 open Diffx
 
+/-! Python `==` on JSON values: dictionaries are compared as mappings (order
+does not matter) and `1 == True`, `0 == False`.  (Python also has `1 == 1.0`;
+floats are carried as their `repr` here and compared literally — the
+correspondence generators keep floats out of equality probes.) -/
+mutual
+def jsonPyEq : Json → Json → Bool
+  | .null, .null => true
+  | .bool a, .bool b => a == b
+  | .int a, .int b => a == b
+  | .int a, .bool b => a == (if b then 1 else 0)
+  | .bool a, .int b => (if a then 1 else 0) == b
+  | .float a, .float b => a == b
+  | .str a, .str b => a == b
+  | .arr a, .arr b => jsonPyEqList a b
+  | .obj a, .obj b => a.length == b.length && jsonPyEqObj a b
+  | _, _ => false
+def jsonPyEqList : List Json → List Json → Bool
+  | [], [] => true
+  | a :: as, b :: bs => jsonPyEq a b && jsonPyEqList as bs
+  | _, _ => false
+def jsonPyEqObj : List (Text × Json) → List (Text × Json) → Bool
+  | [], _ => true
+  | (k, v) :: as, b => jsonPyEqFind k v b && jsonPyEqObj as b
+def jsonPyEqFind (k : Text) : Json → List (Text × Json) → Bool
+  | _, [] => false
+  | v, (k', w) :: bs => if k == k' then jsonPyEq v w else jsonPyEqFind k v bs
+end
+
 /-- a Python value that can be assigned through an attribute / stored as an option -/
 inductive PyVal
   | none
@@ -35,7 +63,7 @@ def PyVal.pyEq : PyVal → PyVal → Bool
   | .bool a, .bool b => a == b
   | .int a, .bool b => a == (if b then 1 else 0)
   | .bool a, .int b => (if a then 1 else 0) == b
-  | .dict a, .dict b => a == b
+  | .dict a, .dict b => jsonPyEq a b
   | _, _ => false
 
 /-- structural identity (distinguishes `1` from `True`) -/
@@ -292,46 +320,60 @@ def contentCall (defaultIndent : Nat) (c : ContentSec) : Except WErr (Option Wri
     let ty ← asOptText tyV
     pure (some (.diff d ty enc le))
 
-def optCall (di : Nat) (c : ContentSec) : Except WErr (List Writer.Call) := do
-  match ← contentCall di c with
-  | some call => pure [call]
-  | none => pure []
+/-- one step of the DOM writer's walk: the writer call for a section, `none` when
+the section is skipped, or the error raised while preparing the call -/
+abbrev Step := Except WErr (Option Writer.Call)
 
-def fileCalls (di : Nat) (f : FileSec) : Except WErr (List Writer.Call) := do
-  onlyKeys f.opts [b!"encoding"]
-  let enc ← asOptText (kw f.opts b!"encoding")
-  pure ([Writer.Call.newFile enc] ++ (← optCall di f.metaSec) ++ (← optCall di f.diff))
+def containerCall (mk : Option Name → Writer.Call) (o : DOpts) : Step := do
+  onlyKeys o [b!"encoding"]
+  let enc ← asOptText (kw o b!"encoding")
+  pure (some (mk enc))
 
-def changeCalls (di : Nat) (c : ChangeSec) : Except WErr (List Writer.Call) := do
-  onlyKeys c.opts [b!"encoding"]
-  let enc ← asOptText (kw c.opts b!"encoding")
-  let files ← c.files.mapM (fileCalls di)
-  pure ([Writer.Call.newChange enc] ++ (← optCall di c.preamble) ++ (← optCall di c.metaSec) ++ files.flatten)
+def fileSteps (di : Nat) (f : FileSec) : List Step :=
+  [containerCall Writer.Call.newFile f.opts, contentCall di f.metaSec, contentCall di f.diff]
 
-/-- `write_stream`: constructor arguments and the call sequence -/
-def toCalls (di : Nat) (t : Tree) (writerVersion : Text) : Except WErr (Option Name × Text × List Writer.Call) := do
-  -- `version = main_options.pop('version', DiffXWriter.VERSION)`, `encoding = pop('encoding', None)`,
-  -- everything else is passed to `DiffXWriter.__init__` as keyword arguments
+def changeSteps (di : Nat) (c : ChangeSec) : List Step :=
+  [containerCall Writer.Call.newChange c.opts, contentCall di c.preamble, contentCall di c.metaSec] ++
+    c.files.flatMap (fileSteps di)
+
+/-- the sections in the order `write_stream` visits them -/
+def steps (di : Nat) (t : Tree) : List Step :=
+  [contentCall di t.preamble, contentCall di t.metaSec] ++ t.changes.flatMap (changeSteps di)
+
+/-- constructor arguments of `write_stream`:
+`version = main_options.pop('version', DiffXWriter.VERSION)`, `encoding = pop('encoding', None)`,
+everything else is passed to `DiffXWriter.__init__` as keyword arguments -/
+def ctorArgs (t : Tree) (writerVersion : Text) : Except WErr (Option Name × Text) := do
   onlyKeys t.opts [b!"encoding", b!"version"]
-  let enc ← asOptText (kw t.opts b!"encoding")
   let ver : Text ← match t.opts.get b!"version" with
     | Option.none => pure writerVersion
     | some (.str v) => pure v
     | some _ => throw (.writer .optionError)   -- `version not in VALID_VALUES`
-  let changes ← t.changes.mapM (changeCalls di)
-  pure (enc, ver, (← optCall di t.preamble) ++ (← optCall di t.metaSec) ++ changes.flatten)
+  let enc ← asOptText (kw t.opts b!"encoding")
+  pure (enc, ver)
 
-/-- `DiffX.to_bytes()` -/
+/-- the call sequence of a tree all of whose sections can be prepared -/
+def toCalls (di : Nat) (t : Tree) (writerVersion : Text) : Except WErr (Option Name × Text × List Writer.Call) := do
+  let (enc, ver) ← ctorArgs t writerVersion
+  let calls ← (steps di t).mapM id
+  pure (enc, ver, calls.filterMap id)
+
+/-- `DiffX.to_bytes()`: sections are prepared and written one after the other,
+so the first failure in document order is the one that is raised -/
 def toBytes (env : Env) (cfg : Config) (writerVersion : Text) (t : Tree) : Except WErr Bytes := do
-  let (enc, ver, calls) ← toCalls cfg.defaultIndent t writerVersion
+  let (enc, ver) ← ctorArgs t writerVersion
   let (st0, r0) := Writer.init enc ver
   if r0 != .ok then throw (.writer r0)
-  let rec go (st : Writer.St) : List Writer.Call → Except WErr Bytes
+  let rec go (st : Writer.St) : List Step → Except WErr Bytes
     | [] => pure st.out
-    | c :: cs =>
-      let (st', r) := Writer.step env cfg st c
-      if r != .ok then throw (.writer r) else go st' cs
-  go st0 calls
+    | s :: rest =>
+      match s with
+      | .error e => throw e
+      | .ok Option.none => go st rest
+      | .ok (some c) =>
+        let (st', r) := Writer.step env cfg st c
+        if r != .ok then throw (.writer r) else go st' rest
+  go st0 (steps cfg.defaultIndent t)
 
 /-! ## DOM reader (`dom/reader.py`) -/
 
